@@ -70,7 +70,7 @@ pub fn real_sleep(d: Duration) {
 /// One HTTP/1.1 POST; returns (status line, body) or Err on I/O problems / timeout.
 pub fn http_post(port: u16, body: &str) -> Result<(String, String), String> {
     let mut s = TcpStream::connect(("127.0.0.1", port)).map_err(|e| format!("connect: {}", e))?;
-    s.set_read_timeout(Some(Duration::from_secs(20))).ok();
+    s.set_read_timeout(Some(Duration::from_secs(120))).ok();
     let req = format!("POST / HTTP/1.1\r\nHost: localhost\r\nContent-Length: {}\r\nConnection: close\r\n\r\n", body.as_bytes().len());
     s.write_all(req.as_bytes()).map_err(|e| format!("write: {}", e))?;
     s.write_all(body.as_bytes()).map_err(|e| format!("write: {}", e))?;
@@ -131,6 +131,31 @@ pub fn tcp_exchange(port: u16, payload: &[u8], quiet_ms: u64, max_ms: u64) -> Re
     Ok(String::from_utf8_lossy(&out).to_string())
 }
 
+/// Like `tcp_exchange`, but reads until the collected output contains `until` (or the server closes, or `max_ms`
+/// passed): no assumption on how fast the server answers.
+pub fn tcp_exchange_until(port: u16, payload: &[u8], until: &str, max_ms: u64) -> Result<String, String> {
+    let mut s = TcpStream::connect(("127.0.0.1", port)).map_err(|e| format!("connect: {}", e))?;
+    s.set_read_timeout(Some(Duration::from_millis(100))).ok();
+    s.write_all(payload).map_err(|e| format!("write: {}", e))?;
+    let t0 = std::time::Instant::now();
+    let mut out = vec![];
+    let mut buf = [0u8; 4096];
+    while t0.elapsed() < Duration::from_millis(max_ms) {
+        match s.read(&mut buf) {
+            Ok(0) => break,
+            Ok(n) => {
+                out.extend_from_slice(&buf[..n]);
+                if String::from_utf8_lossy(&out).contains(until) {
+                    break;
+                }
+            }
+            Err(e) if e.kind() == std::io::ErrorKind::WouldBlock || e.kind() == std::io::ErrorKind::TimedOut => {}
+            Err(e) => return Err(format!("read: {}", e)),
+        }
+    }
+    Ok(String::from_utf8_lossy(&out).to_string())
+}
+
 // ------------------------------------------------------------------ WebSocket client (ws crate)
 
 #[derive(Clone, Debug)]
@@ -144,6 +169,8 @@ struct WsClient {
     frames: Vec<Frame>,
     got: std::sync::mpsc::Sender<String>,
     wait_ms: u64,
+    /// close as soon as a message containing this text has arrived
+    until: Option<String>,
 }
 
 impl ws::Handler for WsClient {
@@ -157,7 +184,12 @@ impl ws::Handler for WsClient {
         self.out.timeout(self.wait_ms, ws::util::Token(1))
     }
     fn on_message(&mut self, msg: ws::Message) -> ws::Result<()> {
-        let _ = self.got.send(msg.to_string());
+        let text = msg.to_string();
+        let done = self.until.as_ref().map(|u| text.contains(u.as_str())).unwrap_or(false);
+        let _ = self.got.send(text);
+        if done {
+            return self.out.close(ws::CloseCode::Normal);
+        }
         Ok(())
     }
     fn on_timeout(&mut self, _: ws::util::Token) -> ws::Result<()> {
@@ -167,9 +199,19 @@ impl ws::Handler for WsClient {
 
 /// Opens a WebSocket connection, sends the frames, collects text messages for `wait_ms`, closes.
 pub fn ws_exchange(port: u16, frames: Vec<Frame>, wait_ms: u64) -> Result<Vec<String>, String> {
+    ws_exchange_inner(port, frames, wait_ms, None)
+}
+
+/// Sends the frames and waits until a message containing `until` arrives (at most `max_ms`): no assumption on how
+/// fast the server answers.
+pub fn ws_exchange_until(port: u16, frames: Vec<Frame>, until: &str, max_ms: u64) -> Result<Vec<String>, String> {
+    ws_exchange_inner(port, frames, max_ms, Some(until.to_string()))
+}
+
+fn ws_exchange_inner(port: u16, frames: Vec<Frame>, wait_ms: u64, until: Option<String>) -> Result<Vec<String>, String> {
     let (tx, rx) = std::sync::mpsc::channel();
     let url = format!("ws://127.0.0.1:{}", port);
-    let h = std::thread::spawn(move || ws::connect(url, |out| WsClient { out, frames: frames.clone(), got: tx.clone(), wait_ms }).map_err(|e| format!("{}", e)));
+    let h = std::thread::spawn(move || ws::connect(url, |out| WsClient { out, frames: frames.clone(), got: tx.clone(), wait_ms, until: until.clone() }).map_err(|e| format!("{}", e)));
     let r = h.join().map_err(|_| "ws client thread panicked".to_string())?;
     r?;
     let mut out = vec![];
